@@ -281,6 +281,9 @@ PROPS = {
     'reader-result': ('C03',),
     'keys': ('C01',),
     'reader-pure': ('C01', 'C03'),
+    'clone-equal': ('C10',),
+    'clone-independent': ('C10',),
+    'clone-pure': ('C10', 'C01'),
 }
 
 
@@ -376,7 +379,7 @@ def ob_next_id(env, N, cap):
 
 
 # ====================================================================== helpers
-def decode_hex(c, st, addr):
+def decode_hex(c, st, addr, want_ptr=False):
     """the byte string held by the Hex at addr, by running the real Hex::bytes on it:
     list of (condition, length term, [byte terms]) -- one entry per representation"""
     w, vm = c.w, c.vm
@@ -397,7 +400,7 @@ def decode_hex(c, st, addr):
                 bs.append(cell_term(cells[0]) if cells[0] is not None else None)
             except Terminal:
                 bs.append(None)
-        res.append((cond, n, bs))
+        res.append((cond, n, bs, ptr) if want_ptr else (cond, n, bs))
     return res
 
 
@@ -831,3 +834,217 @@ def ob_bind_slots(env, N, cap, v1=0, v2=1):
         o.kind == 'ret' and vm.feasible(o.st, z3.And(*[CNT[b] != 0 for b in range(2, NSLOT - 1)])) for o in outs))
     env.sample({'op': 'bind(v1,v2) over all slot occupancies', 'N': N, 'cap': cap, 'paths': len(outs), 'slots chosen': sorted(chosen)})
     env.account(w)
+
+
+# ====================================================================== clone (C10)
+def ob_clone(env, N, cap):
+    """clone() from every Inv state: the copy's abstract state equals the original's (tags, persistence,
+    data bytes and representation-independent content, edges in order, member lists, counters, position),
+    lives in allocations of its own, and the original is byte-identical afterwards"""
+    c = Ctx(env, N, cap)
+    w, y, vm = c.w, c.y, c.vm
+    st = c.pre.fork()
+    out = w.scratch(st, w.gsize, 'out.clone')
+    c.pre = st
+    call = {'op': 'clone'}
+    pre_bases = {a.base for a in st.mem.pages.values()}
+    outs = vm.run(st, w.pfx + 'clone', [w.g, out])
+    T = c.T(); P = c.P(); E = c.E(); CNT = c.CNT(); CTR = c.CTR()
+    for o in outs:
+        if o.kind != 'ret':
+            c.terminal_violation(o, call, ('C10', 'C07'), 'returns')
+            continue
+        post = o.st
+        pr = w.scratch(post, 24 * 8, 'probe')
+        post = w.call1(post, w.pfx + 'probe', out, pr).st
+        PR = [w.rd(post, pr + 8 * i, 8) for i in range(24)]
+        if not all(isinstance(x, int) for x in PR):
+            raise Inconclusive("clone: symbolic arena addresses")
+        cw = w.view(PR)
+        cl = []
+        # own allocations
+        arenas_new = all(post.mem.lookup(a).base not in pre_bases for a in (cw.v0, cw.s0, cw.b0))
+        cl.append(('clone-independent:arenas', z3.BoolVal(arenas_new)))
+        eqs = []
+        for i in range(cap):
+            eqs.append(to_bv(cw.tag(post, i), 64) == T[i])
+            eqs.append(to_bv(cw.pers(post, i), 8) == P[i])
+            eqs.append(to_bv(cw.elen(post, i), 64) == E[i])
+            for j in range(N):
+                eqs.append(z3.Implies(z3.UGT(E[i], j), z3.And(
+                    to_bv(cw.etgt(post, i, j), 64) == y.etgt[i][j],
+                    label_cells_eq(c, cw.ekey_cells(post, i, j), w.ekey_cells(c.pre, i, j)))))
+        cl.append(('clone-equal:vertices', z3.And(*eqs)))
+        eqs = []
+        for b in range(NSLOT):
+            eqs.append(to_bv(cw.cnt(post, b), 64) == CNT[b])
+            eqs.append(to_bv(cw.ctr(post, b), 64) == CTR[b])
+            for k in range(NSLOT if b >= 2 else 1):
+                it0 = c.ITEM(c.pre, b, k)
+                eqs.append(z3.Implies(z3.UGT(CNT[b], k), to_bv(cw.item(post, b, k), 64) == it0))
+        eqs.append(to_bv(cw.pos(post), 64) == to_bv(w.pos(c.pre), 64))
+        cl.append(('clone-equal:groups', z3.And(*eqs)))
+        # data: same bytes, buffers of its own
+        deq = []
+        own = True
+        for i in range(cap):
+            dec = decode_hex(c, post, cw.a_data(i), want_ptr=True)
+            deq.append(hex_equals([(cd, n, bs) for cd, n, bs, _ in dec], y.data[i]))
+            for cd, n, bs, ptr in dec:
+                if isinstance(ptr, int):
+                    ptrs = [ptr]
+                else:
+                    s2 = post.fork(); s2.assume(cd)
+                    if not vm.solver.check(s2.pc, want_model=False)[0]:
+                        continue
+                    ptrs = vm.values_of(s2, ptr, exact=True)
+                for pv in ptrs:
+                    a = post.mem.lookup(pv)
+                    inside_clone = a is not None and a.base == post.mem.lookup(cw.v0).base
+                    if a is not None and a.base in pre_bases and not inside_clone:
+                        own = False
+        cl.append(('clone-equal:data', z3.And(*deq)))
+        cl.append(('clone-independent:data-buffers', z3.BoolVal(own)))
+        fr, nd = c.frame(post, lambda key: False)
+        cl += [('clone-pure:' + n_, f) for n_, f in fr]
+        c.refute(post, cl, call, props_of)
+        env.cover('clone of a graph with a heap datum', lambda: vm.feasible(post, z3.Or(*[y.data[i].sel != 0 for i in range(cap)])))
+        env.cover('clone of a graph with a live group', lambda: vm.feasible(post, z3.Or(*[z3.UGE(T[i], 2) for i in range(cap)])))
+    env.sample({'op': 'clone()', 'N': N, 'cap': cap, 'paths': len(outs), 'outcomes': sorted({o.kind for o in outs})})
+    env.account(w)
+
+
+# ====================================================================== memory safety and limits (C07)
+def _classify(c, outs, call, in_limits, what):
+    """no path may end in a memory error; a path that returns must be within the limits"""
+    vm = c.vm
+    for o in outs:
+        if o.kind == 'memerr':
+            if vm.solver.check(o.st.pc, want_model=False)[0]:
+                c.terminal_violation(o, call, ('C07',), 'memory-error')
+        elif o.kind == 'ret':
+            ok, model = vm.solver.check(o.st.pc, z3.Not(in_limits))
+            if ok:
+                c.report(model, ['limit-not-enforced:' + what], call, lambda n: ('C07',), kind='ret',
+                         detail='the call returns although it exceeds a limit (%s)' % what)
+        elif o.kind == 'abort':
+            c.terminal_violation(o, call, ('C07',), 'memory-error')
+
+
+def ob_mem(env, N, cap):
+    """every operation with UNCONSTRAINED arguments from every Inv state: each path ends in a return or
+    a panic, never in an out-of-bounds / freed / uninitialised access; an id at or above the capacity,
+    an (N+1)-th label and a 17th member end in a panic"""
+    c = Ctx(env, N, cap)
+    w, y, vm = c.w, c.y, c.vm
+    T = c.T(); E = c.E(); CNT = c.CNT()
+    base = c.pre
+    v = z3.BitVec('v', 64)
+    npaths = 0
+    kinds = set()
+
+    def go(st, fn, args, call, in_limits, what):
+        nonlocal npaths
+        outs = vm.run(st, w.pfx + fn, args)
+        npaths += len(outs)
+        kinds.update(o.kind for o in outs)
+        _classify(c, outs, call, in_limits, what)
+        return outs
+    # ---- one id argument, any 64-bit value
+    st = base.fork()
+    outs = go(st, 'add', [w.g, v], {'op': 'add', 'v': v}, z3.ULT(v, cap), 'id >= capacity')
+    env.cover('add with an id at or above the capacity panics', any(o.kind == 'panic' for o in outs))
+    st = base.fork()
+    d = SymHex('arg'); st.assume(d.wf()); st, da = w.make_hex(st, d)
+    go(st, 'put', [w.g, v, da], {'op': 'put', 'v': v, 'd': d}, z3.ULT(v, cap), 'id >= capacity')
+    st = base.fork()
+    out = w.scratch(st, w.sz_hex, 'out')
+    go(st, 'data', [w.g, v, out], {'op': 'data', 'v': v}, z3.ULT(v, cap), 'id >= capacity')
+    st = base.fork()
+    a = SymLabel('arg'); st.assume(a.wf()); st, la = w.make_label(st, a)
+    outp = w.scratch(st, 8, 'out')
+    go(st, 'kid', [w.g, v, la, outp], {'op': 'kid', 'v': v, 'a': a}, z3.ULT(v, cap), 'id >= capacity')
+    lab_out = w.scratch(st, max(1, N) * w.sz_label, 'out.labels')
+    tgt_out = w.scratch(st, max(1, N) * 8, 'out.targets')
+    go(st, 'kids', [w.g, v, lab_out, tgt_out], {'op': 'kids', 'v': v}, z3.ULT(v, cap), 'id >= capacity')
+    # ---- bind: each endpoint in turn unconstrained, the other fixed (present or not, equal or not)
+    hit0 = z3.Or(*[z3.And(z3.UGT(E[0], j), y.ekey[0][j].eq(a)) for j in range(N)])
+    lim = z3.And(z3.ULT(v, cap))
+    go(st, 'bind', [w.g, v, 1, la], {'op': 'bind', 'v1': v, 'v2': 1, 'a': a}, lim, 'id >= capacity')
+    go(st, 'bind', [w.g, 0, v, la], {'op': 'bind', 'v1': 0, 'v2': v, 'a': a},
+       z3.And(z3.ULT(v, cap), z3.Or(hit0, z3.ULT(E[0], N), T[0] == 0)), 'id >= capacity or more than N labels')
+    # ---- the (N+1)-th label
+    s2 = st.fork()
+    s2.assume(T[0] != 0); s2.assume(T[1] != 0); s2.assume(E[0] == N); s2.assume(z3.Not(hit0))
+    outs = go(s2, 'bind', [w.g, 0, 1, la], {'op': 'bind', 'v1': 0, 'v2': 1, 'a': a}, z3.BoolVal(False), 'more than N labels')
+    env.cover('an (N+1)-th label panics', any(o.kind == 'panic' for o in outs))
+    env.sample({'op': 'all operations, unconstrained ids', 'N': N, 'cap': cap, 'paths': npaths, 'outcomes': sorted(kinds)})
+    env.account(w)
+
+
+def ob_mem_members(env, N, cap):
+    """a 17th member: a slot that already lists 16 members (over-approximated pre-state: the members
+    themselves are arbitrary) and a bind that joins it must panic before writing past the list"""
+    c = Ctx(env, N, cap, assume_inv=False)
+    w, y, vm = c.w, c.y, c.vm
+    T = c.T(); E = c.E(); CNT = c.CNT()
+    st = c.pre.fork()
+    a = SymLabel('arg'); st.assume(a.wf()); st, la = w.make_label(st, a)
+    st.assume(z3.UGE(T[0], 2)); st.assume(T[1] == 1)
+    st.assume(c.at(CNT, T[0]) == NSLOT)
+    st.assume(z3.ULT(E[0], N)); st.assume(z3.ULT(E[1], N))
+    for b in range(2, NSLOT):
+        st.assume(z3.ULE(CNT[b], NSLOT))
+    n = 0
+    for (v1, v2) in ((0, 1), (1, 0)):
+        call = {'op': 'bind', 'v1': v1, 'v2': v2, 'a': a}
+        outs = vm.run(st, w.pfx + 'bind', [w.g, v1, v2, la])
+        n += len(outs)
+        _classify(c, outs, call, z3.BoolVal(False), 'more than 16 members')
+        env.cover('a 17th member panics (%d,%d)' % (v1, v2), any(o.kind == 'panic' for o in outs))
+    env.sample({'op': 'bind joining a full group', 'N': N, 'cap': cap, 'paths': n})
+    env.account(w)
+
+
+def ob_mem_lifecycle(env, N, cap):
+    """empty(cap), clone, a few calls, drop of both -- concrete, for the allocator discipline:
+    every dealloc matches its alloc, nothing is freed twice or used after free"""
+    from .vm import VM
+    from . import harness
+    mod = harness.module(env.ll)
+    vm = VM(mod, dict(merge_calls=()))
+    pfx = '@s%d_' % N
+    st = vm.new_state()
+    g = st.mem.alloc(4096, 16, 'heap', name='G').base
+    g2 = st.mem.alloc(4096, 16, 'heap', name='G2').base
+    lab = st.mem.alloc(64, 16, 'heap', name='L').base
+    hx = st.mem.alloc(64, 16, 'heap', name='H').base
+    src = st.mem.alloc(16, 16, 'heap', name='S', fill=7).base
+
+    def one(st, fn, *args):
+        outs = vm.run(st, fn, list(args))
+        if len(outs) != 1 or outs[0].kind not in ('ret',):
+            raise Inconclusive("%s: %r" % (fn, outs))
+        return outs[0].st
+    st = one(st, pfx + 'empty', g, cap)
+    live0 = {a.base for a in st.mem.pages.values() if a.kind == 'heap' and a.live}
+    if cap >= 2:
+        st = one(st, pfx + 'add', g, 0)
+        st = one(st, pfx + 'add', g, 1)
+        st = one(st, '@label_alpha', lab, 0)
+        st = one(st, pfx + 'bind', g, 0, 1, lab)
+        st = one(st, '@hex_vector', hx, src, 12)
+        st = one(st, pfx + 'put', g, 1, hx)
+    st = one(st, pfx + 'clone', g, g2)
+    st = one(st, pfx + 'drop', g2)
+    st = one(st, pfx + 'drop', g)
+    if cap >= 2:
+        st = one(st, '@hex_drop', hx)
+    leaked = [a for a in {a.base: a for a in st.mem.pages.values()}.values() if a.kind == 'heap' and a.live and a.name and a.name.startswith('heap#')]
+    env.res['paths'] += 1
+    env.res['queries'] += vm.solver.queries
+    env.res['steps'] += st.steps
+    env.res['funcs'] = sorted(vm.stats['funcs'])
+    env.cover('lifecycle ran to the end', True)
+    env.sample({'op': 'empty/add/bind/put/clone/drop lifecycle', 'N': N, 'cap': cap, 'ir_steps': st.steps,
+                'heap allocations still live at the end (leaks are not part of the property)': len(leaked)})
